@@ -1,6 +1,6 @@
 // C19: LD_PRELOAD shim observing the Cb-level malloc()/free() built-ins of the interpreter.
 //
-// The interpreter implements the Cb built-in malloc(size) by one call to std::malloc in
+// The interpreter implements the Cb built-in malloc(size) by one call to std::malloc (or calloc) in
 // call_impl.cpp.  A generated program starts with `void* cal = malloc(12345); free(cal);`.  The shim
 // remembers the return address of every malloc(12345) call made from the main executable itself
 // (= the built-in's call site; operator new lives in libstdc++ and is never taken) and from
@@ -85,9 +85,8 @@ void handed_out(void *p) {       // the allocator returned p: it is no longer a 
 }
 }  // namespace
 
-extern "C" void *malloc(size_t n) {
-    void *p = __libc_malloc(n);
-    void *ra = __builtin_return_address(0);
+// common part of malloc / calloc: calibration and reporting for the call site `ra`
+static void *observed(void *p, size_t n, void *ra) {
     handed_out(p);
     if (n == MAGIC && !is_site(ra) && nsites < MAXSITE && in_main_executable(ra)) sites[nsites++] = ra;
     if (nsites && p && is_site(ra) && nlive < CAP) {
@@ -95,6 +94,9 @@ extern "C" void *malloc(size_t n) {
         emit('M', p, n, true);
     }
     return p;
+}
+extern "C" void *malloc(size_t n) {
+    return observed(__libc_malloc(n), n, __builtin_return_address(0));
 }
 extern "C" void free(void *p) {
     if (p && nsites) {
@@ -110,10 +112,8 @@ extern "C" void free(void *p) {
     }
     __libc_free(p);
 }
-extern "C" void *calloc(size_t a, size_t b) {
-    void *p = __libc_calloc(a, b);
-    handed_out(p);
-    return p;
+extern "C" void *calloc(size_t a, size_t b) {      // a repaired built-in may well use calloc
+    return observed(__libc_calloc(a, b), a * b, __builtin_return_address(0));
 }
 extern "C" void *realloc(void *q, size_t n) {
     void *p = __libc_realloc(q, n);
